@@ -15,7 +15,7 @@ RULE = (
     "max(5e-7, 2*u_row), u_row = written precision of the row's own non-integer coefficients; (b) atomic symbols "
     "that are an SI prefix + registered symbol and whose registered name starts with the prefix name: slope(row) "
     "against 10**k*slope(base). (c) the Scalar form: Scalar(x,row) and the product/quotient of component Scalars "
-    "have the same base magnitude (left to right, N/D, N*(1/D), (1/D)*N, powers written with **), x Hypothesis-generated; before the sweep a project database that gives shipped symbols other sizes matches them under exponents (nothing it learns may reach another database) and some rows are offered for registration once more with other factors (refused); a composition with an offset unit under an exponent other than 1, divided by its twin written with the base unit (either order), is the pure ratio of the unit sizes. Every decomposable row is non-trivial (it relates >= 2 "
+    "have the same base magnitude (left to right, N/D, N*(1/D), (1/D)*N, powers written with **), x Hypothesis-generated; before the sweep a project database that gives shipped symbols other sizes matches them under exponents (nothing it learns may reach another database) and some rows are offered for registration once more with other factors (refused); a composition with an offset unit under an exponent other than 1, divided by its twin written with the base unit (either order), is the pure ratio of the unit sizes. The negated amount converted through the exponent list has the opposite sign. Every decomposable row is non-trivial (it relates >= 2 "
     "table rows); distinct key = row symbol."
 )
 ASSUMPTIONS = [
@@ -220,6 +220,15 @@ class Checker:
                 ctx.cls("exponent_list_conversion_raises_%s" % type(e).__name__)
             if in_base is not None and math.isfinite(ma) and ma != 0:
                 mb0 = in_base * (um.slope[base_u] ** ce)
+                # (the amount with the opposite sign converts to the opposite number, whatever the exponent)
+                try:
+                    neg = (b0 * -1.0).GetValue([(base_u, ce)])
+                except Exception as e:
+                    if core.tree_frame(e) is None:
+                        raise
+                    neg = None
+                if neg is not None and in_base != 0 and abs(neg / in_base + 1) > 1e-9:
+                    ctx.record("exponent_list_conversion_loses_the_sign:%s" % sym, {"sym": sym, "kind": "scalar_form", "reading": [list(c) for c in comp], "x": x}, "%r converts with GetValue([(%r,%d)]) to %r, the same amount with the opposite sign to %r" % (b0, base_u, ce, in_base, neg))
                 if abs(mb0 / ma - 1) > tol:
                     ctx.record("scalar_form_exponent_list_conversion:%s" % sym, {"sym": sym, "kind": "scalar_form", "reading": [list(c) for c in comp], "x": x}, "Scalar(%r,%r) is %.10g in base units; its composition %r converted with GetValue([(%r,%d)]) gives %.10g" % (x, sym, ma, b0, base_u, ce, mb0))
                 ctx.cls("scalar_form_exponent_list_conversion")
